@@ -207,4 +207,80 @@ example : hdrErr 4096 (marker ++ [0, 20, 4]) = some (1, 2) := by decide      -- 
 example : hdrErr 4096 (marker ++ [0, 20, 3]) = none := by decide             -- NOTIFICATION of length 20: not answered
 example : hdrErr 4096 (List.replicate 15 255 ++ [254, 0, 19, 4]) = some (1, 1) := by decide
 
+/-- a strict prefix of the reference encoding of a valid message is not yet a message -/
+theorem parse1_strict_prefix (max ty : Nat) (body : Bytes) (k : Nat)
+    (hmax : headerLen + body.length ≤ max) (h16 : max ≤ 65535)
+    (hv : lengthValid ty (headerLen + body.length) = true)
+    (hk : k < headerLen + body.length) :
+    parse1 max ((encodeMsg ty body).take k) = .need := by
+  have hfull := parse1_encode max ty body [] hmax h16 hv
+  simp only [List.append_nil] at hfull
+  have htot : (encodeMsg ty body).length = 19 + body.length := by
+    simp [encodeMsg, marker, be16]; omega
+  have hsplit : encodeMsg ty body = (encodeMsg ty body).take k ++ (encodeMsg ty body).drop k :=
+    (List.take_append_drop k _).symm
+  have hlk : ((encodeMsg ty body).take k).length = k := by
+    rw [List.length_take, htot]; simp only [headerLen] at hk; omega
+  unfold parse1
+  by_cases h19 : k < 19
+  · simp [hlk, headerLen, h19]
+  · have hge : 19 ≤ ((encodeMsg ty body).take k).length := by omega
+    have herr : hdrErr max ((encodeMsg ty body).take k) = none := by
+      have := hdrErr_append max ((encodeMsg ty body).take k) ((encodeMsg ty body).drop k) hge
+      rw [← hsplit] at this
+      rw [← this]
+      -- from the full parse
+      unfold parse1 at hfull
+      have hnl : ¬ (encodeMsg ty body).length < headerLen := by simp [htot, headerLen]
+      simp only [hnl, if_false] at hfull
+      cases he : hdrErr max (encodeMsg ty body) with
+      | none => rfl
+      | some cs => rw [he] at hfull; simp at hfull
+    have hlen : hdrLen ((encodeMsg ty body).take k) = headerLen + body.length := by
+      have := hdrLen_append ((encodeMsg ty body).take k) ((encodeMsg ty body).drop k) hge
+      rw [← hsplit] at this
+      rw [← this]
+      simp only [hdrLen, encodeMsg, marker, List.append_assoc]
+      show rd16 (be16 (headerLen + body.length) ++ _) = _
+      exact rd16_be16 _ (by omega) _
+    rw [herr, hlen, hlk]
+    simp only [headerLen] at hk ⊢
+    have h1 : ¬ k < 19 := h19
+    simp [h1, hk]
+
+/-- **Each message with its complete body — never earlier, never lost.** After any number of
+    valid messages, a message of which only a strict prefix has arrived (any cut: inside the
+    marker, the length field, or the body) is not handed up, nothing is refused, and the reader
+    holds exactly those bytes; the rest of the message, in any segmentation (`c06_independent`),
+    completes it. -/
+theorem c06_incomplete_tail_is_held (max : Nat) (h16 : max ≤ 65535) (ms : List (Nat × Bytes))
+    (hv : ∀ m ∈ ms, ValidMsg max m) (m : Nat × Bytes) (hm : ValidMsg max m) (k : Nat)
+    (hk : k < headerLen + m.2.length) :
+    (Reader.init max).feed (encodeAll ms ++ (encodeMsg m.1 m.2).take k) =
+      ({ max := max, pend := (encodeMsg m.1 m.2).take k, dead := false },
+        ms.map (fun m => Out.msg m.1 m.2))
+    ∧ ((Reader.init max).feed (encodeAll ms ++ (encodeMsg m.1 m.2).take k)).1.feed ((encodeMsg m.1 m.2).drop k)
+      = ({ max := max, pend := [], dead := false }, [Out.msg m.1 m.2]) := by
+  have hneed := parse1_strict_prefix max m.1 m.2 k hm.1 h16 hm.2 hk
+  have hp := pump_need max (((encodeMsg m.1 m.2).take k).length + 1) _ hneed
+  have := pump_encodeAll max h16 ms hv ((encodeMsg m.1 m.2).take k)
+    ((encodeAll ms ++ (encodeMsg m.1 m.2).take k).length + 1) (by simp)
+  rw [hp] at this
+  have h1 : (Reader.init max).feed (encodeAll ms ++ (encodeMsg m.1 m.2).take k) =
+      ({ max := max, pend := (encodeMsg m.1 m.2).take k, dead := false },
+        ms.map (fun m => Out.msg m.1 m.2)) := by
+    unfold Reader.feed
+    simp only [Reader.init, Bool.false_eq_true, if_false, List.nil_append, this, List.append_nil]
+  refine ⟨h1, ?_⟩
+  rw [h1]
+  have hone := c06_delivers_exactly max h16 [m] (by intro x hx; simp at hx; subst hx; exact hm)
+  unfold Reader.feed at hone ⊢
+  simp only [Reader.init, Bool.false_eq_true, if_false, List.nil_append, encodeAll, List.map_cons,
+    List.map_nil, List.flatten_cons, List.flatten_nil, List.append_nil] at hone
+  simp only [Bool.false_eq_true, if_false, List.take_append_drop]
+  exact hone
+
+/-- non-vacuity: a KEEPALIVE, then an UPDATE cut inside its length field -/
+example : ((Reader.init 4096).feed (encodeAll [(4, [])] ++ (encodeMsg 2 [0, 0, 0, 0]).take 17)).2 = [Out.msg 4 []] := by decide
+
 end Exa.Props.C06
